@@ -377,6 +377,7 @@ def extract(res):
                     except Exception:
                         pass
                 cascades.append({"n": len(g), "linear": bool(linear), "descs": descs, "real": real, "buffers": buf,
+                                 "up_zero": any(opdesc(so, sched)["up"] < 1 for so in g),
                                  "memcpy": any(so.parent_op.type.name == "Memcpy" for so in g)})
         except Exception as e:  # schedule introspection is best effort; the stripe records are the artefact
             cascades.append({"error": repr(e)[:200]})
